@@ -298,7 +298,7 @@ theorem asgSpec_closed : asgSpec.Closed where
     | rebalanced st2 =>
       rw [hc] at ho; simp only [CleanupOutcome.group?, Option.some.injEq] at ho
       subst ho
-      obtain ⟨st3, hne, rfl, hm⟩ := cleanupOutcome_rebalanced hc
+      obtain ⟨st3, hne, rfl, _, hm⟩ := cleanupOutcome_rebalanced hc
       exact startRebalance_AOk st3 0 now (by rw [hm]; exact sorted_filter h.sorted _) hne
 
 /-- **C12 (the stored assignment matches the current members).** In every state reachable by any
